@@ -52,7 +52,7 @@ T = {
          "Theorems (Props/C12.v): summarising preserves the root; on a summarised tree every read/mutation of the model is an error or agrees with the full tree. Correspondence: 1..3 summarised positions (exhaustive for small backings) x reads, iterators and single mutations; Go vs model, and the error-or-same relation checked on both.",
          "machine-checked proof (Coq) + differential correspondence + property relation on every case"),
  "C13": ("codec I/O is independent of chunking and surfaces faults",
-         "Theorems (Props/C13.v): the fill loop over any legal delivery schedule returns the same bytes as a one-shot reader (C13_schedule_indep, C13_reader_agrees ties it to the reader model the decoders use); a stream that ends or fails before k bytes makes the read fail; at decoder level a stream shorter than the declared scope never yields a value, for the view decoders (C13_short_stream_decode) and for the flat decoders (C13_short_stream_flat); Skip consumes like a read; a failing writer (lazy or eager error reporting, also one that makes short writes: C13_chunked_writer_prefix, C13_chunked_equals_unchunked) accepts exactly a prefix and Written equals it. Partial: schedule independence of whole decoders is by the decoders reading only through the primitive proved schedule-independent (not restated over decoders). Correspondence: primitive read sequences over random schedules; every delivery schedule and every failure position for sampled values (view and flat), including offsets-only encodings whose truncated offset table leaves stale scratch bytes.",
+         "Theorems (Props/C13.v): the fill loop over any legal delivery schedule returns the same bytes as a one-shot reader (C13_schedule_indep, C13_reader_agrees ties it to the reader model the decoders use); a stream that ends or fails before k bytes makes the read fail; at decoder level a stream shorter than the declared scope never yields a value, for the view decoders (C13_short_stream_decode) and for the flat decoders (C13_short_stream_flat); Skip consumes like a read; a failing writer (lazy or eager error reporting, also one that makes short writes: C13_chunked_writer_prefix, C13_chunked_equals_unchunked) accepts exactly a prefix and Written equals it. Reads through nested sub-scopes: the chain of nested io.LimitedReaders (IOChain.v) over any delivery schedule agrees with the in-memory reader that the decoder models use, for every nesting depth (C13_chain_read_value, C13_chain_agrees_with_reader with the well-formedness of reachable chains, C13_chain_schedule_indep, C13_chain_short_stream). Partial: schedule independence of whole decoders is by the decoders reading only through these primitives (not restated over decoders). Correspondence: primitive read sequences over random schedules, scripts of SubScope / Read / back-to-parent over scheduled and failing readers; every delivery schedule and every failure position for sampled values (view and flat), including offsets-only encodings whose truncated offset table leaves stale scratch bytes.",
          "machine-checked proof (Coq) of the I/O primitives + fault/schedule enumeration against the implementation"),
  "C14": ("forks of a hashed tree can be used concurrently",
          "Theorems (Props/C14.v): a fully memoised heap prefix is bit-identical after any step or hash request of any fork (frozen prefix); hash requests commute with steps; fork independence: in EVERY interleaving of the events (all seven operations and hash requests) of any number of forks with disjoint, hook-closed handle sets, each fork observes exactly the outputs and roots of its own sequential run (C14_fork_outputs_independent on the tree machine, C14_interleaving_equals_sequential on the heap machine with its shared memo writes). Partial: the Go memory model is not modelled; data races are searched by go test -race on 2..16 goroutines, not proved absent. Correspondence: per-goroutine observations vs the sequential model replay.",
